@@ -21,7 +21,7 @@ func init() {
 			"(capture) no escaping literal in flow/agent/** writes a variable captured from its constructor; the state generator returns a fresh, unaliased object; " +
 			"(default-checker) both default stream tool-call checkers answer 'no tool call' only at io.EOF or on a chunk with content, 'tool call' only on a chunk with tool calls — an empty leading chunk decides nothing; (loopvar) the tools node and the agent flows keep no loop variable or its address beyond an iteration (each unknown-tool handler call gets its own call's data); " +
 			"(tool-call-merge) streamed tool-call fragments are grouped by ranging over all index groups (C14.map-order).",
-		decided:    []string{"step-limit", "topology", "history", "same-runnable", "capture", "default-checker", "loopvar", "tool-call-merge"},
+		decided:    []string{"step-limit", "topology", "history", "same-runnable", "capture", "default-checker", "loopvar", "tool-call-merge", "return-directly-first", "stream-answers-total"},
 		notDecided: []string{"alternation and history CONTENTS over model scripts", "tool-call detection in streamed output by user-supplied checkers", "return-directly selection", "equality of Generate and Stream answers"},
 		run:        runC18,
 	})
